@@ -8,4 +8,10 @@ PROPS = {
             'explanation': 'per-op functional contracts against spec functions written from asm.yml'},
     'C09': {'level': 'proof', 'verus_units': ['vm_core'],
             'explanation': 'control flow / repeat / eval contracts'},
+    'C07': {'level': 'proof', 'verus_units': ['vm_core'],
+            'explanation': 'Vm::exec loop invariant over a ghost trace of visited pcs and child gas: exact sum, <= limit, no overflow, out-of-gas raised before step_op, termination variant for positive costs'},
+    'C11': {'level': 'proof', 'verus_units': ['vm_core'],
+            'explanation': 'state-read ops: operand popping, view/contract routing, memory layout (layout_k), frame'},
+    'C12': {'level': 'proof', 'verus_units': ['vm_core'],
+            'explanation': 'access ops against spec functions; crypto marshalling assumed'},
 }
